@@ -61,7 +61,7 @@ func writeEvidence(prop, tier string, seed int, wall float64, byFn map[string]*m
 			"harness": fn, "package": m.H.Pkg, "native_twin": m.H.Native, "paths": m.Paths, "completed_paths": m.Completed,
 			"symbolic_decisions": m.Decisions, "queries": m.Queries, "solver_s": round2(m.SolverS), "wall_s": round2(m.WallS),
 			"assertions": labels, "covers": m.Covers, "aborted": m.Aborted, "native_agreed": m.NativeOK, "native_disagreed": m.NativeBad,
-			"bounds": m.H.Bounds, "problems": uniq(m.Problems), "shards": len(m.Shards),
+			"bounds": m.H.Bounds, "problems": uniq(m.Problems), "shards": len(m.Shards), "skipped_does_not_compile": m.Skipped,
 		}
 		harnessInfo = append(harnessInfo, hi)
 		// samples: a few witness paths written out
